@@ -8,7 +8,7 @@ RUNNER = ("SAV.engine.ResultRun", "run_case")
 STATIC_MODULES = ["SAV.engine.ResultRun"]
 RULE = (
     "case = (fetch strategy, row width, rows, operation sequence). Small scope: every ordered pair "
-    "(thorough: triple) of a 17-operation alphabet x 6 strategy settings on a 3-row set with duplicates; "
+    "(thorough: triple) of a 17-operation alphabet x 5 strategy settings on a 3-row set with duplicates; "
     "random: 0..12 rows (thorough 0..40) of width 1..3 over a 3-value domain incl. Python lists, "
     "sequences <= 15 (thorough <= 60) of fetchone/next/iterate(k)/fetchmany(n|None)/partitions(n|None,k)/"
     "all/fetchall/first/one/one_or_none/scalar/scalar_one/scalar_one_or_none/scalars(i)/mappings/tuples/"
@@ -198,7 +198,7 @@ ALPHABET = [
     [ONLYONE, 1], [ONLYONE, 4], [SCALARS, 0], [MAPPINGS], [COLUMNS, [1]], [UNIQUE, 0], [YIELDPER, 2],
     [CLOSE], [FREEZE],
 ]
-SMALL_STRATEGIES = [[0], [1, 1], [1, 2], [1, 5], [2], [3]]
+SMALL_STRATEGIES = [[0], [1, 1], [1, 2], [2], [3]]
 SMALL_ROWS = [[2, 0], [2, 0], [2, 1]]
 
 
@@ -210,14 +210,14 @@ def gen_cases(rng, tier):
             if depth == 3 and strategy not in ([0], [1, 2], [3]):
                 continue
             cases.append({"in": [strategy, 2, SMALL_ROWS, [list(o) for o in ops] + [[FETCHALL]]], "kind": "small"})
-    nrand = 40000 if tier == "thorough" else 2000
+    nrand = 40000 if tier == "thorough" else 1600
     for i in range(nrand):
         if tier == "thorough":
             c = _rand_case(rng, 40 if i % 4 == 0 else 12, 60 if i % 3 == 0 else 15)
         else:
             c = _rand_case(rng, 12, 15)
         cases.append(c)
-    for _ in range(4000 if tier == "thorough" else 250):
+    for _ in range(4000 if tier == "thorough" else 200):
         cases.append(_merge_case(rng))
     return cases
 
@@ -462,7 +462,8 @@ def _fz(v):
 class ListModel:
     """every row once, in order, projected and de-duplicated as requested; closed => ResourceClosedError"""
 
-    def __init__(self, w, rows):
+    def __init__(self, w, rows, cursor=False):
+        self.cursor = cursor  # the result is a CursorResult (not an IteratorResult / MergedResult)
         self.rem = [list(r) for r in rows]
         self.closed = False
         self.yp = None
@@ -584,6 +585,7 @@ class ListModel:
             self.rem = self.rem + [list(r) for r in op[1]]
             self.view = self.root
             self.merged = True
+            self.cursor = False
         elif code == FREEZE:
             if self.closed:
                 return [7, E_CLOSED], True
@@ -592,6 +594,7 @@ class ListModel:
             self.yp = None
             self.root = self.view = _View(0, [(i, c[1]) for i, c in enumerate(self.root.cols)], None)
             self.merged = False
+            self.cursor = False
         else:
             raise ValueError(op)
         return [0], self.closed
@@ -611,11 +614,16 @@ def _onlyone_ignoring_seen(m, v, op):
 
 def oracle(c, obs):
     strategy, w, rows, ops = c["in"]
-    m = ListModel(w, rows)
+    m = ListModel(w, rows, cursor=strategy[0] != 3)
+    stale_used = False
     for i, (op, got) in enumerate(zip(ops, obs)):
         v = m.view
+        if v.stale_unique and op[0] in FETCH_OPS and v.kind != 0:
+            # a getter memoised before unique() is in use: it may file keys in the wrong (shared) seen-set even
+            # when this call's own result is right, so everything from here on is in the region of that defect
+            stale_used = True
         seen_nonempty = v.uniq is not None and len(v.uniq["seen"]) > 0
-        exhausted = not m.rem and not m.closed
+        exhausted_cursor = m.cursor and not m.rem and not m.closed
         closed_merged = m.merged and m.closed
         before = None
         if op[0] == ONLYONE and seen_nonempty:
@@ -637,9 +645,9 @@ def oracle(c, obs):
             return "[merged-close] " + msg
         if before is not None and have == [before, 1]:
             return "[unique-onlyone] " + msg
-        if op[0] == ONLYONE and strategy[0] != 3 and exhausted and have == [want[0], 0]:
+        if op[0] == ONLYONE and exhausted_cursor and have == [want[0], 0]:
             return "[exhausted-onlyone-noclose] " + msg
-        if v.stale_unique and op[0] in FETCH_OPS and v.kind != 0:
+        if stale_used:
             return "[filter-unique-stale] " + msg
         return msg
     return None
